@@ -346,6 +346,7 @@ pub fn property() -> Property {
         id: "C16",
         cases,
         clauses: &["child-kept-until-parent-ends", "child-released-and-stops", "broadcast-delivered"],
+        full_rerun_check: true,
         assumptions: &[
             "trees with three or more nodes are explored with a deviation bound (quick 3, thorough 4); two-node trees with all schedules",
             "a cancellation of the root before its first poll is not in the family (its started() has not yet taken the children's handles from the harness)",
